@@ -1,10 +1,5 @@
-import DFV.JsonField
+import DFV.Drv.C13
 namespace DFV.Drv
-open Lean DFV
-
-/-- driver ops of property C14 (stub: no ops yet) -/
-def c14 (op : String) (j : Json) : Option (R Json) :=
-  match op with
-  | _ => none
-
+/-- C14 shares the transformation driver of C13 -/
+def c14 := c13
 end DFV.Drv
